@@ -61,6 +61,23 @@ class C26(EngineACheck):
         cfg = GenConfig(features=feats, ctx_mode="unique",
                         modes=("thread", "thread", "process", "async"), max_tasks=7, p_ctx=0.45)
         prog = Gen(ch, cfg).generate()
+        # "Echo": where a task calls, under an override, a task whose defaulted parameter reads the
+        # context, the caller also reads the very same get_context(path, default) itself -- two
+        # equal expressions met by one job, to be evaluated under two different contexts.
+        for t in prog.tasks:
+            if t.is_async or t.ret != "int" or t.leaf or "ops" not in prog.features:
+                continue
+            for n in list(walk(t.body)):
+                if n[0] != "call" or not n[4].get("ctx"):
+                    continue
+                callee = prog.tasks[n[1]]
+                supplied = {p[0] for p in callee.params[: len(n[2])]} | {k for k, _ in n[3]}
+                echoes = [p[2] for p in callee.params
+                          if p[2] is not None and p[2][0] == "getctx" and p[0] not in supplied]
+                if echoes and ch.coin(0.7, "echo-default-getctx"):
+                    t.body = ("op", "+", t.body, echoes[0])
+                    out.probe("echoed_default_reads")
+                    break
         cfg_ctx, run_ctx = gen_root_contexts(ch)
         root = refinterp.merge_dicts([cfg_ctx, run_ctx])
         nodes = [n for t in prog.tasks for n in walk(t.body)] + \
